@@ -46,13 +46,13 @@ QUERIES = [tsf_ctor(6, 'quick'), tsf_ctor(8, 'thorough', timeout=1700), tsf_fmt(
            sft('epoch_gmt', P_EP, 'thorough', ncalls=2, unwind=14, timeout=1700), pop('populate_epoch_local', P_EP, 'thorough', local=True),
            sft('i_p_local3', P_12, 'thorough', ncalls=2, unwind=12, local=True, timeout=1700),
            sft('hms_gmt_n3', P_HMS, 'thorough', ncalls=3, unwind=12, timeout=1700)]
-BOUNDS = 'quick: %H:%M:%S (GMT and any quarter-hour local offset) and %I:%M %p (GMT), 2 calls, 2-day window; thorough: %l/%k, weekday, %s patterns, 3 calls'
-OUTSIDE = 'pattern splitting in init (std::map/find/replace: symbolic execution does not finish) - the split parts are given per query; TimestampFormatter (fractional digits, %Q specifiers, rejection of %X / two specifiers); libfmt digit rendering ({:02} {:2} {:10} = three-spec model); glibc strftime and the tz database incl. DST transitions (one fixed zone offset per run); dates (%Y %m %d); more than 3 calls'
+BOUNDS = 'quick: %H:%M:%S (GMT and any quarter-hour local offset) and %I:%M %p (GMT), 2 calls, 2-day window; %H:%M local with one DST transition in a 4-hour window; TimestampFormatter constructor on every pattern <= 6 bytes over 8 symbols; thorough: %l/%k, weekday, %s patterns, 3 calls'
+OUTSIDE = 'pattern splitting in init (std::map/find/replace: symbolic execution does not finish) - the split parts are given per query; TimestampFormatter::format_timestamp and _write_fractional_seconds (fractional digits: harness h_tsf_format kept unregistered - no verdict in 16 GB), rejection of %X in StringFromTime::init; libfmt digit rendering ({:02} {:2} {:10} = three-spec model); glibc strftime and the real tz database (zone = one fixed offset per run, plus in hm_local_dst ONE +-1 h daylight-saving transition at a quarter-hour instant); dates (%Y %m %d); more than 3 calls'
 ASSUMPTIONS = ['libc gmtime_r/localtime_r/timegm/strftime = rt/m_time.c (exact h:m:s, day count, weekday; conversions %H %M %S %I %k %l %p %s %u; one fixed zone offset per run, multiple of 900 s)',
                '_safe_strftime buffer growing replaced by a 40-byte block hook; fmtquill::format_to("{:02}"/"{:2}"/"{:10}") replaced by a hook model',
                'assume/guarantee: format_timestamp queries use the plain-C contract of _populate_pre_formatted_string_and_cached_indexes, and the populate_* queries decide that the real function equals that contract']
 MANIFEST = {
- 'text': 'Reduced scope (StringFromTime caching only). The solver decides on the real StringFromTime::format_timestamp, for every sequence of instants in the window (increasing, repeated, going backwards) and each bounded pattern, that the cached and incrementally patched string equals a fresh rendering of the same instant: hour/minute/second/12-hour/AM-PM/weekday/epoch fields are never stale across second, minute, hour, noon, midnight and quarter-hour recalculation boundaries, in GMT and in a local zone at any quarter-hour offset; and that the real _populate_pre_formatted_string_and_cached_indexes records exactly the right field positions and seconds-of-day (contract used by the first group). Not claimed: pattern splitting, TimestampFormatter fractional digits and specifier rejection, real strftime/tz database, DST transitions.',
+ 'text': 'Reduced scope (StringFromTime caching + TimestampFormatter constructor). The solver decides on the real StringFromTime::format_timestamp, for every sequence of instants in the window (increasing, repeated, going backwards) and each bounded pattern, that the cached and incrementally patched string equals a fresh rendering of the same instant: hour/minute/second/12-hour/AM-PM/weekday/epoch fields are never stale across second, minute, hour, noon, midnight and quarter-hour recalculation boundaries, in GMT and in a local zone at any quarter-hour offset; and that the real _populate_pre_formatted_string_and_cached_indexes records exactly the right field positions and seconds-of-day (contract used by the first group). and - hm_local_dst - across one daylight-saving transition (+-1 h at any quarter-hour instant of the window: the quarter-hour rebuild of the local-time cache is what makes this hold). tsf_ctor: the real TimestampFormatter constructor splits every short pattern at the one fractional specifier (%Qms/%Qus/%Qns) into the two strftime parts with the configured zone and refuses two different specifiers. Not claimed: pattern splitting inside StringFromTime::init, the fractional digits themselves, rejection of %X, real strftime/tz database.',
  'note': 'Bounds: 2 (quick) / 3 (thorough) calls, 2-day window of ten-digit epochs, 5 patterns. libc time and libfmt digit rendering are models. Trusted: clang IR, translator, CBMC.',
  'technique': 'CBMC/SAT (kissat, sliced formula) over clang IR of the real StringFromTime functions vs a fresh-rendering oracle, symbolic instants and zone offset; assume/guarantee split with IR hooks; native replay',
 }
